@@ -14,9 +14,10 @@ CONSTANTS Bases, Precs, Seed, Thin, ThinBig, AllModes
 
 Modes == <<"Zero", "Away", "Up", "Down", "HalfEven", "HalfAway">>
 Ops == {"exp", "exp_m1", "ln", "ln_1p", "powi", "powf"}
-Fams == {"zero", "one", "pow-neg", "one-plus", "one-minus", "near-zero", "near-one", "small-int", "large", "dense"}
+Fams == {"zero", "one", "pow-neg", "one-plus", "one-minus", "near-zero", "near-one", "small-int", "large", "dense", "small-wide"}
 FamNo(f) == CASE f = "zero" -> 1 [] f = "one" -> 2 [] f = "pow-neg" -> 3 [] f = "one-plus" -> 4 [] f = "one-minus" -> 5
               [] f = "near-zero" -> 6 [] f = "near-one" -> 7 [] f = "small-int" -> 8 [] f = "large" -> 9 [] f = "dense" -> 10
+              [] f = "small-wide" -> 11
 OpNo(o) == CASE o = "exp" -> 1 [] o = "exp_m1" -> 2 [] o = "ln" -> 3 [] o = "ln_1p" -> 4 [] o = "powi" -> 5 [] o = "powf" -> 6
 NCls == {"le-2", "-1", "0", "1", "ge2"}
 YCls == {"zero", "one", "int-pos", "int-neg", "frac-pos", "frac-neg", "frac-tiny"}
@@ -75,6 +76,9 @@ XMag(f, B, p, v) ==
     [] f = "large" -> LET w == Pick1(<<37, 100, 163, 200>>, v)
                       IN IF (v \div 4) % 2 = 0 THEN [m |-> FromNat(w), e |-> 0] ELSE [m |-> FromNat(w * B + 1), e |-> -1]
     [] f = "dense" -> LET nd == Min2(pp, 45) IN [m |-> DenseMag(B, nd, v + 7 * B), e |-> -nd + Pick1(<<-1, 0, 1>>, v)]
+    \* more digits than the precision AND a magnitude below 1/B (the branch of exp_m1 / ln_1p without scaling): the rounding
+    \* of the argument on entry must happen at the working precision, not at the target precision
+    [] f = "small-wide" -> LET nd == Min2(2 * pp + 3, 48) IN [m |-> DenseMag(B, nd, v + 5 * B), e |-> -nd - Pick1(<<1, 2, pp>>, v)]
 
 \* integer exponent of powi, bounded so that the exact power stays below about 300 digits
 NOf(ec, v, weight) ==
